@@ -21,6 +21,7 @@ import (
 	"path"
 	"strings"
 	"sync"
+	"sync/atomic"
 	"time"
 
 	"github.com/coredns/coredns/plugin"
@@ -104,6 +105,7 @@ type FBDNSDB struct {
 	reloadMu      sync.RWMutex
 	done          chan struct{}
 	lru           *lru.Cache
+	cacheEpoch    uint64 // bumped, under reloadMu, every time the response cache is purged
 	logger        Logger
 	stats         stats.Stats
 	Next          plugin.Handler
@@ -361,6 +363,7 @@ func (h *FBDNSDB) Reload(s ReloadSignal) (err error) {
 	h.dbConfig.Path = newPath
 
 	if h.cacheConfig.Enabled && h.lru != nil {
+		atomic.AddUint64(&h.cacheEpoch, 1)
 		h.lru.Purge()
 	}
 
@@ -379,6 +382,18 @@ func (h *FBDNSDB) AcquireReader() (db.Reader, error) {
 	h.reloadMu.RLock()
 	defer h.reloadMu.RUnlock()
 	return db.NewReader(h.dnsdb)
+}
+
+// cacheAdd stores a response computed by a query which sampled cacheEpoch
+// before acquiring its reader. The entry is dropped if the cache has been
+// purged since (the response may come from a replaced DB); holding reloadMu
+// makes the check and the insertion atomic with respect to Reload.
+func (h *FBDNSDB) cacheAdd(epoch uint64, key string, entry cacheEntry) {
+	h.reloadMu.RLock()
+	defer h.reloadMu.RUnlock()
+	if atomic.LoadUint64(&h.cacheEpoch) == epoch {
+		h.lru.Add(key, entry)
+	}
 }
 
 // Close closes the database. It also takes care of closing the channel used
